@@ -380,10 +380,61 @@ pub fn run(ctx: &mut Ctx) -> (&'static str, String, bool) {
     if !miri && (min_off >= 1020 || growths == 0) {
         ctx.inconclusive(format!("long sessions never drove the receive buffer's spare capacity below one maximum frame (min {min_off}, growth events {growths}): the session-length half was not exercised"));
     }
+    // ---- connections made by Builder::tcp over loopback: the peer's segmentation is the kernel's ---------------
+    if !miri {
+        use crate::realconn::builder_tcp_session;
+        let n = ctx.tier.pick(8u64, 120u64);
+        let base = ctx.rng.fork(5005);
+        let parts: Vec<(Part, Option<String>)> = (0..n)
+            .into_par_iter()
+            .map(|i| {
+                let mut p = Part::new();
+                let mut r = base.fork(i);
+                let which = if i % 2 == 0 { Impl::Blocking } else { Impl::Tokio };
+                let compressed = (i / 2) % 2 == 0;
+                let target = if i % 3 == 0 { 6120 * 2 + r.usize_below(6120) } else { 100 + r.usize_below(4000) };
+                let stream = make_stream(c, &mut r, compressed, target, false);
+                match builder_tcp_session(c, &mut r, which, compressed, stream, 0) {
+                    Ok(o) => {
+                        p.evaluations += 1;
+                        p.distinct(&(which.name(), &o.stream));
+                        p.count("builder_tcp_sessions", 1);
+                        p.count("builder_tcp_segments_sent", o.segments as u64);
+                        let mut want = o.expected.clone();
+                        want.push(crate::transport::ReadResult::Disconnected);
+                        if o.results != want {
+                            let at = o.results.iter().zip(want.iter()).position(|(a, b)| a != b).unwrap_or(o.results.len().min(want.len()));
+                            p.violation(
+                                format!("C05/{}/builder-tcp/result-differs", which.name()),
+                                format!(
+                                    "{}: {} frames sent in {} TCP segments, {} results; first difference at #{at}: {} vs {}",
+                                    o.label,
+                                    o.expected.len(),
+                                    o.segments,
+                                    o.results.len(),
+                                    o.results.get(at).map(crate::sess::short).unwrap_or_else(|| "<none>".into()),
+                                    want.get(at).map(crate::sess::short).unwrap_or_else(|| "<none>".into())
+                                ),
+                                json!({"label": o.label, "stream_len": o.stream.len(), "segments": o.segments, "stream_head": hex(&o.stream[..o.stream.len().min(256)])}),
+                            );
+                        }
+                        (p, None)
+                    },
+                    Err(e) => (p, Some(e)),
+                }
+            })
+            .collect();
+        for (p, e) in parts {
+            ctx.merge(p);
+            if let Some(e) = e {
+                ctx.inconclusive(format!("builder TCP session could not be judged: {e}"));
+            }
+        }
+    }
     ctx.assume("the scripted transport models a TCP-like byte stream: each read returns 1..=offered of the remaining bytes, a transient error, Pending (async), or EOF");
     (
         "fault_enumeration",
-        "all 2^(B-1) partitions of three short streams (B<=16) x {blocking,tokio} x both modes; a transient error (3 kinds, with/without Pending) injected at every read index of four segmentations; end of stream at every byte offset; long sessions of 3-10x the 6120-byte buffer mixing every kind, unknown types and undecodable bodies under seven hostile partition styles with random faults; judged by reference framing, byte conservation (hook) and blocking==tokio; distinct = distinct (stream, plan)".into(),
+        "all 2^(B-1) partitions of three short streams (B<=16) x {blocking,tokio} x both modes; a transient error (3 kinds, with/without Pending) injected at every read index of four segmentations; end of stream at every byte offset; long sessions of 3-10x the 6120-byte buffer mixing every kind, unknown types and undecodable bodies under seven hostile partition styles with random faults; judged by reference framing, byte conservation (hook) and blocking==tokio; connections made by Builder::tcp over loopback whose peer sends the stream in 4 TCP segmentation styles; distinct = distinct (stream, plan)".into(),
         true,
     )
 }
